@@ -101,10 +101,70 @@ Fixpoint zipw {X Y Z} (f : X -> Y -> Z) (l1 : list X) (l2 : list Y) : list Z :=
 (* right operand *)
 Inductive rhs :=
 | RNum (c : b64)                           (* int or float *)
-| RArr (sh : list nat) (a : list b64)      (* ndarray; when numpy can broadcast it to
-                                              the shape of the left operand, [sh] is that
-                                              shape and [a] the broadcast cells *)
+| RArr (sh : list nat) (a : list b64)      (* ndarray of shape sh (numpy broadcasting is
+                                              modelled: [bshape], [bcast]) *)
 | RDs (d : ds).
+
+(* ---- numpy broadcasting ---- *)
+
+(* n chunks of size k *)
+Fixpoint chunks {X} (k n : nat) (l : list X) : list (list X) :=
+  match n with
+  | O => []
+  | S n' => firstn k l :: chunks k n' (skipn k l)
+  end.
+
+(* shapes aligned on the right: reversed lists, dimension by dimension *)
+Fixpoint bshape_rev (r1 r2 : list nat) : option (list nat) :=
+  match r1, r2 with
+  | [], r | r, [] => Some r
+  | a :: t1, b :: t2 =>
+      match bshape_rev t1 t2 with
+      | None => None
+      | Some t => if Nat.eqb a b then Some (a :: t)
+                  else if Nat.eqb a 1 then Some (b :: t)
+                  else if Nat.eqb b 1 then Some (a :: t)
+                  else None
+      end
+  end.
+
+(* numpy.broadcast_shapes; None: "operands could not be broadcast together" *)
+Definition bshape (s1 s2 : list nat) : option (list nat) :=
+  option_map (@rev nat) (bshape_rev (rev s1) (rev s2)).
+
+(* data of shape sh (same rank as tgt, every dimension equal or 1) seen with shape tgt *)
+Fixpoint bc {X} (sh tgt : list nat) (data : list X) : list X :=
+  match sh, tgt with
+  | n :: sh', t :: tgt' =>
+      if Nat.eqb n t then flat_map (bc sh' tgt') (chunks (prod sh') n data)
+      else List.concat (repeat (bc sh' tgt' data) t)
+  | _, _ => data
+  end.
+
+(* numpy.broadcast_to: missing leading dimensions count as 1 *)
+Definition bcast {X} (sh tgt : list nat) (data : list X) : list X :=
+  bc (repeat 1%nat (List.length tgt - List.length sh) ++ sh) tgt data.
+
+(* ---- Dataset.__init__: value and error of the same shape; bins absent or
+        one per dimension with n or n+1 entries.  numpy arrays carry their
+        shape, the lists of the model do not: the list lengths are checked
+        against the shapes as well (never false for the implementation) ---- *)
+Fixpoint dims_okb {X} (sh : list nat) (bs : list (list X)) : bool :=
+  match sh, bs with
+  | [], [] => true
+  | n :: sh', b :: bs' =>
+      (Nat.eqb (List.length b) n || Nat.eqb (List.length b) (S n)) && dims_okb sh' bs'
+  | _, _ => false
+  end.
+
+Definition ctor (vsh : list nat) (v : list b64) (esh : list nat) (e : list b64)
+           (m : option (list bool)) (bn : list (string * list b64)) (nm wh : string) : res ds :=
+  if list_eqb Nat.eqb vsh esh
+     && Nat.eqb (List.length v) (prod vsh) && Nat.eqb (List.length e) (prod vsh)
+     && match m with Some l => Nat.eqb (List.length l) (prod vsh) | None => true end
+     && match bn with [] => true | _ => dims_okb vsh (map snd bn) end
+  then Ok {| shape := vsh; value := v; error := e; mask := m; bins := bn; name := nm; what := wh |}
+  else Raise 1%nat.
 
 (* numpy.array_equal on 1-d float arrays: same length, all cells == *)
 Definition arr_equal (a b : list b64) : bool :=
@@ -150,12 +210,26 @@ Definition binop (o : bop) (d : ds) (r : rhs) : res ds :=
             error := map (fun e => cell_err_dc o e c) (error d);
             mask := mask d; bins := bins d; name := name d; what := what d |}
   | RArr sh a =>
-      if negb (list_eqb Nat.eqb sh (shape d)) then Raise 1%nat
-      else
+      if list_eqb Nat.eqb sh (shape d) then
       Ok {| shape := shape d;
             value := zipw (cell_val o) (value d) a;
             error := zipw (cell_err_dc o) (error d) a;
             mask := mask d; bins := bins d; name := name d; what := what d |}
+      else
+      match bshape (shape d) sh with
+      | None => Raise 1%nat                  (* numpy cannot broadcast *)
+      | Some bs =>
+          (* the value takes the broadcast shape; + and - hand the error on as it
+             is, * and / broadcast it too; __init__ then accepts or rejects *)
+          let ab := bcast sh bs a in
+          let v := zipw (cell_val o) (bcast (shape d) bs (value d)) ab in
+          match o with
+          | Add | Sub => ctor bs v (shape d) (error d) (mask d) (bins d) (name d) (what d)
+          | Mul | Div =>
+              ctor bs v bs (zipw (cell_err_dc o) (bcast (shape d) bs (error d)) ab)
+                   (option_map (bcast (shape d) bs) (mask d)) (bins d) (name d) (what d)
+          end
+      end
   | RDs d2 =>
       if negb (consistent d d2) then Raise 1%nat
       else
